@@ -174,7 +174,9 @@ def run(tier, argv):
     if tier == "quick":
         disc = rng.sample(disc, min(len(disc), 40))
     nkeys = 400 if tier == "quick" else 4000
-    for (_, pg, th, outs) in disc:
+    for n_disc, (_, pg, th, outs) in enumerate(disc):
+        if n_disc and n_disc % 40 == 0:
+            jax.clear_caches()
         theta = float(fr(th))
         E = mk_program(pg, scripted=False)
         ck = f"adev-seeded|{pname(pg)}|theta={fr(th)}"
@@ -375,7 +377,9 @@ def run_cond_programs(chk, tier, rng, key0):
     pc = [n for n in enum_only if "pcat" in kinds_of(byprog[n][0]) and n not in todo]
     todo += rng.sample(pc, min(4 if tier == "quick" else 40, len(pc)))
     nkeys = 300 if tier == "quick" else 3000
-    for name in todo:
+    for n_todo, name in enumerate(todo):
+        if n_todo and n_todo % 40 == 0:
+            jax.clear_caches()      # one jit per program: drop finished executables (mapped-memory limits of long runs)
         pg, rows = byprog[name]
         E = mk_cond_program(pg)
         exact_only = name in enum_only
